@@ -91,11 +91,14 @@ fn c15c_asm_loads_in_bounds() {
 }
 
 // C06-D: the portable loop is total on every state (stream source that may be exhausted), count up to 32.
-//@ {"name":"c06d_direct_bits_total","props":["C06","C05"],"obligation":"C06-D","timeout":1500,"mem_gb":9,"functions":["range_dec::RangeDecoder::decode_direct_bits (portable, stream source)","range_dec::RangeReader::read_u8"],"bounds":"range, code any u32; count 0..=8; source of 0..=4 arbitrary bytes; unwind 24","assumes":[]}
+//@ {"name":"c06d_direct_bits_total","props":["C06","C05"],"obligation":"C06-D","timeout":1500,"mem_gb":9,"functions":["range_dec::RangeDecoder::decode_direct_bits (portable, stream source)","range_dec::RangeReader::read_u8"],"bounds":"range any value >= 2^16, code any u32; count 0..=8; source of 0..=4 arbitrary bytes; unwind 24","assumes":["range >= 2^16 (inductive decoder invariant)"]}
 #[kani::proof]
 #[kani::unwind(24)]
 fn c06d_direct_bits_total() {
     let (range, code): (u32, u32) = (kani::any(), kani::any());
+    // range >= 2^16 is the decoder's inductive invariant (c01a2_rc_step_invariants); with range == 0 the portable
+    // loop would never terminate (0 << 8 == 0), a state no decode_bit can produce
+    kani::assume(range >= (1 << 16));
     let count: u32 = kani::any();
     kani::assume(count <= 8);
     let mut d = RangeDecoder { inner: Src::<4>::any(), range, code };
